@@ -1814,3 +1814,127 @@ Proof.
   replace w with (Nat.odd (b2n w)) at 2 by (destruct w; reflexivity).
   rewrite <- (leaves_entries (snd nm) (b2n w) [] (fst nm) H2 H1). reflexivity.
 Qed.
+
+(* ================================================================== Signature.flatten on a created interface *)
+Definition strip (l : leaf) : sleaf := SLeaf (l_path l) (l_flow l) (l_shape l) (l_init l).
+
+Definition elem_leaves (k : nat) (m : member) (q : path) : list sleaf :=
+  match m with
+  | Port f sh i _ => [SLeaf q (iter_flip k f) sh i]
+  | Iface f w ms _ => flat_map (fun nm => spec_leaves_m (k + b2n w + b2n (is_in f)) (snd nm) (q ++ [PN (fst nm)])) ms
+  end.
+
+Lemma spec_leaves_elem k m q :
+  spec_leaves_m k m q = flat_map (fun idx => elem_leaves k m (q ++ idx)) (idx_paths (m_dims m)).
+Proof.
+  destruct m as [f sh i d | f w ms d]; cbn [spec_leaves_m m_dims elem_leaves].
+  - induction (idx_paths d); simpl; [reflexivity|]. f_equal; assumption.
+  - apply flat_map_ext. intros idx. apply flat_map_ext. intros nm. rewrite <- app_assoc. reflexivity.
+Qed.
+
+Lemma nth_error_seq len : forall a i, (i < len)%nat -> nth_error (seq a len) i = Some (a + i)%nat.
+Proof.
+  induction len as [|len IH]; intros a i Hi; [lia|]. destruct i as [|i]; simpl.
+  - f_equal. lia.
+  - rewrite IH by lia. f_equal. lia.
+Qed.
+
+Lemma iter_dims_create {A} (F : path -> obj -> res (list A)) f dims : forall p q,
+  (forall idx, In idx (idx_paths dims) -> is_ok (F (q ++ idx) (f (p ++ idx))) = true) ->
+  iter_dims F dims q (create_dims f dims p) =
+    Ok (flat_map (fun idx => unres (F (q ++ idx) (f (p ++ idx)))) (idx_paths dims)).
+Proof.
+  induction dims as [|d rest IH]; intros p q H.
+  - simpl. specialize (H [] (or_introl eq_refl)). rewrite !app_nil_r in *.
+    destruct (F q (f p)); [reflexivity|discriminate].
+  - cbn [iter_dims create_dims idx_paths].
+    set (E := fun i => match nth_error (map (fun i0 => create_dims f rest (p ++ [PI i0])) (seq 0 d)) i with
+                       | Some c => iter_dims F rest (q ++ [PI i]) c | None => Err EIndex end).
+    assert (HE : forall i, In i (seq 0 d) ->
+               E i = Ok (flat_map (fun idx => unres (F (q ++ PI i :: idx) (f (p ++ PI i :: idx)))) (idx_paths rest))).
+    { intros i Hi. apply in_seq in Hi. unfold E.
+      rewrite (map_nth_error (fun i0 => create_dims f rest (p ++ [PI i0])) i (seq 0 d) (nth_error_seq d 0 i ltac:(lia))).
+      simpl. rewrite IH.
+      - f_equal. apply flat_map_ext. intros idx. rewrite <- !app_assoc. reflexivity.
+      - intros idx Hidx. rewrite <- !app_assoc. apply H. apply in_flat_map. exists i. split; [apply in_seq; lia|].
+        apply in_map. exact Hidx. }
+    assert (G : concat_res (map E (seq 0 d)) =
+                Ok (flat_map (fun i => unres (E i)) (seq 0 d))).
+    { apply concat_res_map_iff. split; [|reflexivity]. intros i Hi. rewrite (HE i Hi). reflexivity. }
+    fold E. rewrite G. f_equal. rewrite flat_map_flat_map.
+    apply flat_map_ext_Forall with (P := fun i => In i (seq 0 d)); [apply Forall_forall; auto|].
+    intros i Hi. rewrite (HE i Hi). simpl. rewrite flat_map_map. reflexivity.
+Qed.
+
+Lemma flat_create m : forall k p q, wf_mb m = true -> safe_mb (Nat.odd k) m = true ->
+  let r := flat_obj_m (Nat.odd k) m q (tog (Nat.odd k && m_is_iface m) (create_m false m p)) in
+  is_ok r = true /\ map strip (unres r) = elem_leaves k m q.
+Proof.
+  induction m as [f sh i d | f w ms d IH] using member_ind2; intros k p q Hwf Hsafe; cbv zeta.
+  - simpl. rewrite iter_flip_odd. split; reflexivity.
+  - set (fl := Nat.odd k) in *.
+    cbn [m_is_iface m_is_port negb]. rewrite andb_true_r.
+    cbn [create_m]. set (attrs := map _ ms).
+    assert (Ht : tog fl (OIf (sub_flag false f w) (false, ms) attrs) = OIf (sub_flag fl f w) (false, ms) attrs).
+    { unfold tog. destruct fl; [|reflexivity]. f_equal. destruct f, w; reflexivity. }
+    rewrite Ht. clear Ht.
+    assert (Hg : sub_flag fl f w = Nat.odd (k + b2n w + b2n (is_in f))) by (unfold fl; apply sub_flag_odd).
+    set (k' := (k + b2n w + b2n (is_in f))%nat) in *. set (g := sub_flag fl f w) in *.
+    cbn [flat_obj_m elem_leaves]. fold g. fold k'.
+    cbn [wf_mb] in Hwf. apply andb_prop in Hwf. destruct Hwf as [Hnd Hwf].
+    cbn [safe_mb] in Hsafe. fold g in Hsafe.
+    rewrite forallb_forall in Hwf, Hsafe. rewrite Forall_forall in IH. clearbody g. subst g.
+    set (E := fun nm : Z * member => match obj_get (OIf (Nat.odd k') (false, ms) attrs) (fst nm) with
+              | GVal c => iter_dims (flat_obj_m (Nat.odd k') (snd nm)) (m_dims (snd nm)) (q ++ [PN (fst nm)]) c
+              | GMissing => Err EAttr | GTypeErr => Err ETypeErr end).
+    assert (HE : forall nm, In nm ms ->
+              is_ok (E nm) = true /\ map strip (unres (E nm)) = spec_leaves_m k' (snd nm) (q ++ [PN (fst nm)])).
+    { intros [n mm] Hin. unfold E. cbn [fst snd].
+      specialize (Hsafe _ Hin). cbn [snd] in Hsafe. apply andb_prop in Hsafe. destruct Hsafe as [Hs1 Hs2].
+      specialize (Hwf _ Hin). cbn [snd] in Hwf. specialize (IH _ Hin). cbn [snd] in IH.
+      unfold obj_get.
+      assert (Ha : assoc n attrs = Some (create_dims (create_m false mm) (m_dims mm) (p ++ [PN n]))).
+      { apply nodupb_assoc.
+        - unfold attrs. rewrite map_map. cbn [fst]. exact Hnd.
+        - unfold attrs. apply in_map_iff. exists (n, mm). split; auto. }
+      rewrite Ha.
+      assert (Hi : is_iface_name n (false, ms) = m_is_iface mm).
+      { unfold is_iface_name. cbn [snd]. rewrite (nodupb_assoc ms n mm Hnd Hin). reflexivity. }
+      rewrite Hi. rewrite spec_leaves_elem.
+      destruct (Nat.odd k' && m_is_iface mm) eqn:Egi.
+      - try rewrite Egi in Hs1. cbn [andb negb] in Hs1. apply negb_true_iff in Hs1.
+        destruct (m_dims mm) eqn:Ed; [|discriminate]. cbn [create_dims idx_paths flat_map iter_dims].
+        rewrite !app_nil_r.
+        destruct mm as [|f' w' ms' d']; [cbn [m_is_iface m_is_port negb] in Egi; rewrite andb_false_r in Egi; discriminate|].
+        specialize (IH k' (p ++ [PN n]) (q ++ [PN n]) Hwf Hs2). cbv zeta in IH. rewrite Egi in IH.
+        cbn [create_m flipped] in *. unfold tog in IH. exact IH.
+      - assert (Hall : forall idx, In idx (idx_paths (m_dims mm)) ->
+            is_ok (flat_obj_m (Nat.odd k') mm ((q ++ [PN n]) ++ idx) (create_m false mm ((p ++ [PN n]) ++ idx))) = true /\
+            map strip (unres (flat_obj_m (Nat.odd k') mm ((q ++ [PN n]) ++ idx) (create_m false mm ((p ++ [PN n]) ++ idx))))
+              = elem_leaves k' mm ((q ++ [PN n]) ++ idx)).
+        { intros idx _. specialize (IH k' ((p ++ [PN n]) ++ idx) ((q ++ [PN n]) ++ idx) Hwf Hs2). cbv zeta in IH.
+          rewrite Egi in IH. exact IH. }
+        rewrite iter_dims_create by (intros idx Hidx; apply Hall; exact Hidx).
+        split; [reflexivity|]. cbn [unres]. rewrite (map_flat_map strip).
+        apply flat_map_ext_Forall with (P := fun idx => In idx (idx_paths (m_dims mm))); [apply Forall_forall; auto|].
+        intros idx Hidx. apply Hall. exact Hidx. }
+    fold E.
+    assert (G : concat_res (map E ms) = Ok (flat_map (fun nm => unres (E nm)) ms)).
+    { apply concat_res_map_iff. split; [|reflexivity]. intros nm Hnm. apply HE. exact Hnm. }
+    rewrite G. split; [reflexivity|]. cbn [unres]. rewrite (map_flat_map strip).
+    apply flat_map_ext_Forall with (P := fun nm => In nm ms); [apply Forall_forall; auto|].
+    intros nm Hnm. apply HE. exact Hnm.
+Qed.
+
+(* Signature.flatten(obj) on an interface created from the signature yields exactly the specification leaves
+   (paths with indices, effective directions, shapes, inits), in order *)
+Theorem flatten_created x p :
+  wf_sig x = true -> safe_sig x = true ->
+  exists ls, flat_obj x (create x p) = Ok ls /\ map strip ls = spec_leaves x.
+Proof.
+  intros Hw Hs. unfold flat_obj, create.
+  pose proof (flat_create (top x) 0 p [] Hw Hs) as H. cbv zeta in H. change (Nat.odd 0) with false in H. cbn [andb tog] in H.
+  destruct (flat_obj_m false (top x) [] (create_m false (top x) p)) as [ls|] eqn:E; [|destruct H; discriminate].
+  exists ls. split; [reflexivity|]. destruct H as [_ H]. cbn [unres] in H. rewrite H.
+  unfold spec_leaves, top, elem_leaves. cbn [is_in b2n]. rewrite Nat.add_0_r. reflexivity.
+Qed.
